@@ -772,7 +772,7 @@ def ctlArr : Ctl F → Array F
 def cboundsOf (c : Cfg F) (l0 l1 h0 h1 : F) : CBounds F :=
   if c.kind == .dpoint then .disc (Num.toInt l0) (Num.toInt h0) else .real [l0, l1] [h0, h1]
 
-partial def pDSamplerOps (c : Cfg F) (acc : Array (Op F Rng.Rng (Array F))) : P (Array (Op F Rng.Rng (Array F))) := do
+partial def pDSamplerOps (c : Cfg F) (steered : Bool) (acc : Array (Op F Rng.Rng (Array F))) : P (Array (Op F Rng.Rng (Array F))) := do
   match (← get) with
   | [] => pure acc
   | _ =>
@@ -785,21 +785,21 @@ partial def pDSamplerOps (c : Cfg F) (acc : Array (Op F Rng.Rng (Array F))) : P 
       let h1 ← pF
       guardP (l0 ≤ h0 && l1 ≤ h1)
       guardP (c.kind != .dpoint || (l0 == l0.floor && h0 == h0.floor && l0.abs ≤ 1e6 && h0.abs ≤ 1e6))
-      pDSamplerOps c (acc.push (.setBounds (cboundsOf c l0 l1 h0 h1)))
+      pDSamplerOps c steered (acc.push (.setBounds (cboundsOf c l0 l1 h0 h1)))
     | "M" =>
       let a ← pN
       let b ← pN
       guardP (a ≥ 1 && a ≤ b && b ≤ 1000)
-      pDSamplerOps c (acc.push (.setMinMax a b))
+      pDSamplerOps c steered (acc.push (.setMinMax a b))
     | "D" =>
       let d ← pF
       guardP (d > 1e-9 && d < 1e3)
-      pDSamplerOps c (acc.push (.setStep d))
-    | "R" => let sd ← pN; pDSamplerOps c (acc.push (.realloc (Rng.Rng.create sd.toUInt64)))
+      pDSamplerOps c steered (acc.push (.setStep d))
+    | "R" => let sd ← pN; pDSamplerOps c steered (acc.push (.realloc (Rng.Rng.create sd.toUInt64)))
     | "T" =>
       let src ← pReals c.kind.nreals
       let dst ← pReals c.kind.nreals
-      pDSamplerOps c (acc.push (.sampleTo src dst))
+      pDSamplerOps c steered (acc.push (if steered then .steerTo src dst else .sampleTo src dst))
     | _ => failure
 
 def showOutT : Out F (Array F) → String
@@ -812,13 +812,25 @@ def opDSampler : P String := do
   let boxes ← pEnv
   let k ← pKVNat "k"
   let lseed ← pKVNat "lseed"
+  let steered ← (do
+    match (← get) with
+    | t :: _ => if t == "steer=1" then let _ ← tok; pure true else if t == "steer=0" then let _ ← tok; pure false else pure false
+    | [] => pure false)
   expect "ops"
-  guardP (k ≥ 1 && k ≤ 20)
-  let ops ← pDSamplerOps c #[]
+  guardP (k ≥ 1 && k ≤ 20 && (!steered || c.kind == .point))
+  let ops ← pDSamplerOps c steered #[]
   let P : Params F Rng.Rng (Array F) F :=
     { drawCtl := sampleCtl rawRng, drawSteps := sampleSteps rawRng,
       step := fun dt s u => ControlSys.step c.kind dt s (ctlArr u),
-      valid := ControlSys.valid c eps boxes, dist := ControlSys.dist c.kind, lt := fun a b => decide (a < b), k := k }
+      valid := ControlSys.valid c eps boxes, dist := ControlSys.dist c.kind, lt := fun a b => decide (a < b), k := k,
+      -- the harness's steering function of the point system (SysPropagator::steer): straight line at the max-norm speed 1
+      steer := fun a b =>
+        let dx := g b 0 - g a 0
+        let dy := g b 1 - g a 1
+        let L : F := Num.max dx.abs dy.abs
+        if L > 0 then some (.real [dx / L, dy / L], L) else none,
+      -- SteeredControlSampler: `unsigned int steps = std::floor(duration / si_->getPropagationStepSize() + 0.5)`
+      toSteps := fun d dt => (Num.toInt (Float.floor (d / dt + 0.5))).toNat }
   let cb0 := cboundsOf c (g c.clo 0) (g c.clo 1) (g c.chi 0) (g c.chi 1)
   let st : St F Rng.Rng := { conf := { cb := cb0, minSteps := c.minSteps, maxSteps := c.maxSteps, dt := c.dt },
                              gen := Rng.Rng.create lseed.toUInt64, cache := cb0 }
